@@ -22,7 +22,7 @@ from ..sym import R, real, rmax
 from . import kernel
 from . import mineral_h as mh
 from .C05 import uf_field
-from .common import all_eq, eq, np_installed, pydrex_modules, sample
+from .common import all_eq, eq, np_installed, pydrex_modules, sample, only_path
 
 TIMEOUT_MS = {"quick": 90000, "thorough": 300000}
 INF = float("inf")
@@ -68,7 +68,7 @@ def t_invariants(sess):
 
     with np_installed(core):
         paths, _ = sym.explore(fn)
-    p = paths[0]
+    p = only_path(sess, paths)
     r, base, rot, flips = p.value
     rules = poly.Rules().unit_quat(r)
     sess.satisfiable("invariants: reach", p.pc)
@@ -109,7 +109,7 @@ def t_slip_rates(sess):
 
             with np_installed(core):
                 paths, _ = sym.explore(fn)
-            p = paths[0]
+            p = only_path(sess, paths)
             sg, g, g2, act, act2 = p.value
             want = [sg[k] * sg[i_max] * g[k] for k in range(4)]
             want[i_max] = R(1)
@@ -141,7 +141,7 @@ def t_schmid(sess):
 
     with np_installed(core):
         paths, _ = sym.explore(fn)
-    p = paths[0]
+    p = only_path(sess, paths)
     r, Q, G, Grot, flips = p.value
     rules = poly.Rules().unit_quat(r)
     sess.satisfiable("schmid: reach", p.pc)
@@ -176,7 +176,7 @@ def t_softest(sess):
         return r, s, (n1, d1), (n2, d2), (n3, d3)
 
     paths, _ = sym.explore(fn)
-    p = paths[0]
+    p = only_path(sess, paths)
     r, s, (n1, d1), (n2, d2), (n3, d3) = p.value
     rules = poly.Rules().unit_quat(r).sign(s)
     sess.prove_nf("softest: <symG,symL> and <symG,symG> unchanged by G -> Q G Q^T, L -> Q L Q^T (so gamma0 and its 1e-15 guard are unchanged)", p.pc, rules, [n2, d2], [n1, d1])
@@ -200,7 +200,7 @@ def t_spin(sess):
 
     with np_installed(core):
         paths, _ = sym.explore(fn)
-    p = paths[0]
+    p = only_path(sess, paths)
     r, s, Q, dA, dArot, flips = p.value
     rules = poly.Rules().unit_quat(r).sign(s)
     sess.satisfiable("spin: reach", p.pc)
@@ -234,7 +234,7 @@ def t_energy(sess):
 
         with np_installed(core):
             paths, _ = sym.explore(fn)
-        p = paths[0]
+        p = only_path(sess, paths)
         E, E2 = p.value
         sess.prove(f"strain energy[{fb}] depends on |gamma_s gamma0| only: unchanged by arbitrary sign flips of the slip rates and of gamma0", p.pc, eq(E, E2))
     sess.satisfiable("energy: reach", p.pc)
